@@ -1,4 +1,5 @@
 """C17 - serialised hierarchies and signals survive a round trip."""
+import copy
 import glob
 import json
 import os
@@ -6,17 +7,24 @@ from .. import core, gen
 from . import vcdfam, c09
 
 PID = "C17"
-LEVEL = "translation_validation"
+LEVEL = "proof"
 RULE = ("with feature serde1 every Hierarchy and every loaded Signal of generated VCD files (negative and zero-width bit ranges, "
         "array scopes, attributes, source locators, 2/4/9-state, real and string signals, delta cycles) and of the corpus files of "
         "all three formats (enum tables, slices, aliases) is serialised with serde_json, deserialised, and the complete observation "
         "of the clone (tree walk with attributes, lookups, slice info, change iteration, point queries at every index) is compared "
         "with the original; a second serialisation must reproduce the text. Independently the JSON of real objects is validated "
-        "against the schema translated from the derive sites of the current source (26 types). Non-trivial: the object has >= 1 "
-        "scope and >= 2 variables/changes; distinct files.")
-ASSUMPTIONS = ["serde's derive macros and serde_json are trusted (A-serde); the translated schema describes the derive sites, "
-               "it is not a semantics of the macro"]
-TRUSTED_BASE = ["Python schema validator c17.conforms (serde_json's encoding of the serde data model)"]
+        "against the schema translated from the derive sites of the current source (26 types). Model tie: the JSON of generated "
+        "and corpus objects must be read by the model's de and written back identically by its ser (image of the model), and "
+        "locally corrupted documents (value out of range, other JSON type, null, unknown variant, shortened array) must be "
+        "accepted / rejected alike by the derived Deserialize and by the model. Non-trivial: the object has >= 1 "
+        "scope and >= 2 variables/changes; distinct files; a corrupted document counts when its verdict is known to differ "
+        "from the intact one's or its kind is new.")
+ASSUMPTIONS = ["serde's derive macros and serde_json are modelled (Model/Serde.v: ser / de over shapes), not verified (A-serde); the "
+               "theorem is about that model instantiated with the shapes translated from the derive sites",
+               "objects are plain data: an accessor's result is a function of the field values (no skipped field: the translator "
+               "refuses every #[serde(..)] attribute)"]
+TRUSTED_BASE = ["translator vlib/translate.py (derive sites -> Generated/SerdeSchema.v and serde_schema.json)",
+                "Python schema validator c17.conforms and document encoder c17.enc_doc; OCaml document parser in driver.ml (cmd_serde)"]
 
 INT_RANGES = {"u8": (0, 2 ** 8 - 1), "u16": (0, 2 ** 16 - 1), "u32": (0, 2 ** 32 - 1), "u64": (0, 2 ** 64 - 1),
               "i8": (-2 ** 7, 2 ** 7 - 1), "i16": (-2 ** 15, 2 ** 15 - 1), "i32": (-2 ** 31, 2 ** 31 - 1), "i64": (-2 ** 63, 2 ** 63 - 1),
@@ -94,6 +102,90 @@ def conforms(schema, t, v, path="$"):
             return "%s: %r is no variant of %s" % (path, str(v)[:60], t["named"])
         return "%s: unsupported definition of %s" % (path, t["named"])
     return "%s: unsupported type %r" % (path, t)
+
+
+def enc_doc(v):
+    """a JSON document in the prefix notation the model runner reads (coq/extract/driver.ml, cmd_serde)"""
+    if v is None:
+        return "n"
+    if v is True:
+        return "t"
+    if v is False:
+        return "f"
+    if isinstance(v, int):
+        return "i%d;" % v
+    if isinstance(v, str):
+        return "s%s;" % v.encode("utf-8", "surrogatepass").hex()
+    if isinstance(v, list):
+        return "a%d;" % len(v) + "".join(enc_doc(x) for x in v)
+    if isinstance(v, dict):
+        return "o%d;" % len(v) + "".join("s%s;" % k.encode("utf-8", "surrogatepass").hex() + enc_doc(x) for k, x in v.items())
+    raise ValueError("no encoding for %r" % (v,))
+
+
+def leaves(v, path=()):
+    """paths of every node of a document"""
+    yield path
+    if isinstance(v, list):
+        for i, x in enumerate(v):
+            yield from leaves(x, path + (i,))
+    elif isinstance(v, dict):
+        for k, x in v.items():
+            yield from leaves(x, path + (k,))
+
+
+def get_at(v, path):
+    for p in path:
+        v = v[p]
+    return v
+
+
+def set_at(v, path, new):
+    if not path:
+        return new
+    v = copy.deepcopy(v)
+    cur = v
+    for p in path[:-1]:
+        cur = cur[p]
+    cur[path[-1]] = new
+    return v
+
+
+def corrupt(rng, doc):
+    """one local change of a document that the derived Deserialize and the model must judge alike: a value out of
+    its range, of another JSON type, null, an unknown variant name, a shortened array.  (Changes on which the derived
+    code is more liberal than the model - reordered, missing or extra object members, map keys - are not made.)"""
+    paths = list(leaves(doc))
+    for _ in range(50):
+        path = rng.choice(paths)
+        old = get_at(doc, path)
+        kind = None
+        if isinstance(old, bool):
+            new, kind = rng.choice([(1, "bool->int"), (None, "bool->null"), (not old, "bool-flip")])
+        elif isinstance(old, int):
+            cands = [(0, "int->0"), (-1, "int->-1"), (2 ** 16, "int->2^16"), (2 ** 32, "int->2^32"), (2 ** 64, "int->2^64"),
+                     (2 ** 64 - 1, "int->2^64-1"), (old + 1, "int+1"), ("x", "int->str"), (None, "int->null"), (True, "int->bool"),
+                     (-2 ** 31, "int->-2^31"), (255, "int->255"), (256, "int->256")]
+            new, kind = rng.choice(cands)
+        elif isinstance(old, str):
+            new, kind = rng.choice([("Bogus", "str->Bogus"), (7, "str->int"), (None, "str->null"), ("", "str->empty")])
+        elif old is None:
+            new, kind = rng.choice([(1, "null->1"), ("x", "null->str"), ([], "null->[]")])
+        elif isinstance(old, list):
+            if not old:
+                new, kind = rng.choice([(None, "[]->null"), ([1], "[]->[1]")])
+            else:
+                new, kind = rng.choice([(old[:-1], "drop-last"), (old + old[-1:], "repeat-last"), (None, "array->null")])
+        elif isinstance(old, dict):
+            ks = list(old.keys())
+            if len(ks) == 1 and ks[0][:1].isupper():
+                new, kind = rng.choice([({"Bogus": old[ks[0]]}, "variant->Bogus"), (ks[0], "variant->unit-string"), (None, "variant->null")])
+            else:
+                new, kind = None, "object->null"
+        if kind is None or new == old and type(new) == type(old):
+            continue
+        return set_at(doc, path, new), kind
+    return None, None
 
 
 def conforms_struct(schema, fields, v, path):
@@ -205,6 +297,57 @@ def run(res, rng, tier, model_ok, replay=None):
             res.mismatches.append(("serdej " + f, "JSON of the implementation", "schema translated from the derive sites: " + why))
         else:
             res.nontrivial.add(("shape", f))
+    # model tie: the implementation's documents lie in the image of the model; corrupted documents are judged alike
+    if core.TRANSLATOR_INFO.get("serde_translator_degraded"):
+        res.mismatches.append(("translation of the derive sites", "current source",
+                               "the translator cannot describe it: " + core.TRANSLATOR_INFO["serde_translator_degraded"]))
+    if model_ok and not replay:
+        nj = 40 if tier == "quick" else 400
+        jlines = ["serdej - " + l.split(" ", 2)[2] for l in lines if l.startswith("serdev - ")][:nj]
+        jlines += ["serdej " + f for f in shape_files if os.path.getsize(f) < 400000]
+        docs = []
+        for jl, o in zip(jlines, core.run_cases(core.WV_DEBUG, jlines, "c17m", timeout=600)):
+            if o == "LOADFAIL":
+                continue
+            try:
+                d = json.loads(o)
+            except ValueError:
+                res.violations.append((jl[:4000], o[:300], "JSON", "could not serialise"))
+                continue
+            docs.append((jl, "Hierarchy", d["hierarchy"]))
+            for sdoc in d["signals"][:6]:
+                docs.append((jl, "Signal", sdoc))
+        cases = []
+        for jl, tname, d in docs:
+            cases.append((jl, tname, d, "intact"))
+            for _ in range(3 if tier == "quick" else 8):
+                c, kind = corrupt(rng, d)
+                if c is not None:
+                    cases.append((jl, tname, c, kind))
+        enc = []
+        for jl, tname, d, kind in cases:
+            try:
+                enc.append(enc_doc(d))
+            except ValueError as e:
+                enc.append(None)
+                res.mismatches.append((jl[:300], "document with " + str(e), "the model's JSON has integers, strings, arrays, objects only"))
+        idx = [i for i, e in enumerate(enc) if e is not None]
+        mouts = core.run_cases(core.MODEL_RUN, ["serde %s %s" % (cases[i][1], enc[i]) for i in idx], "c17mm", timeout=900)
+        iouts = core.run_cases(core.WV_DEBUG, ["serdede %s %s" % (cases[i][1], json.dumps(cases[i][2], separators=(",", ":")).encode("utf-8").hex())
+                                               for i in idx], "c17mi", timeout=900)
+        for i, mo, io in zip(idx, mouts, iouts):
+            jl, tname, d, kind = cases[i]
+            res.evaluations += 1
+            kk = "model-" + ("intact" if kind == "intact" else "corrupted") + "-" + io.split(" ")[0]
+            res.distribution[kk] = res.distribution.get(kk, 0) + 1
+            if kind == "intact" and io != "accept-same":
+                res.violations.append((("serdede %s <document of> %s" % (tname, jl))[:4000], io, "accept-same",
+                                       "the object's own JSON is not read back into an object that writes the same JSON"))
+            elif mo != io:
+                res.mismatches.append((("%s of %s, %s: %s" % (tname, jl[:300], kind, json.dumps(d, separators=(",", ":"))[:1500])),
+                                       "derived Deserialize: " + io, "model de/ser: " + mo))
+            else:
+                res.nontrivial.add(("doc", tname, kind, io, hash(enc[i]) if kind == "intact" else 0))
     res.samples = [l[:200] for l in lines[:2]] + [lines[-1]]
 
 
